@@ -226,6 +226,25 @@ func hsScenario(spec *hsSpec) *Scenario {
 				}
 				m.probeStreams("idle.probe", sa, sb, 4)
 			}
+			// a T1 expiry that was already on its way when the handshake completed (it lost the race
+			// for the association lock against the packet that completed it) is delivered late: it
+			// must not disturb the established association
+			// (associations set up from tokens never start T1)
+			if len(m.viol) == 0 && len(m.streamsSeen) >= 2 && !spec.SNAP {
+				for e := 0; e < 2; e++ {
+					a := m.As[e]
+					lt := m.Go(fmt.Sprintf("late-t1.%d", e), func() {
+						a.onRetransmissionFailure(timerT1Init)
+						a.onRetransmissionFailure(timerT1Cookie)
+					})
+					if !m.WaitUntil("late-t1", 2*time.Second, func() bool { return lt.Done }) {
+						m.Failf("handshake.late-timer", "endpoint %d: a T1 failure callback delivered after the association was established never returns (and holds the association lock)", e)
+					}
+				}
+				if len(m.viol) == 0 {
+					m.probeStreams("handshake.late-timer", m.streamsSeen[0], m.streamsSeen[1], 90)
+				}
+			}
 			if len(m.viol) == 0 && spec.Stale {
 				sa, sb := m.streamsSeen[0], m.streamsSeen[1]
 				// replay every handshake packet seen so far into its original destination
